@@ -23,10 +23,13 @@ def get_type_of_variable_list(
     Returns:
         Type of the last element in the variable list as string.
     """
-    current_struct = struct_definitions[task.variables[var_list[0]]]
-    for i in range(1, len(var_list) - 1):
-        current_struct = struct_definitions[current_struct.attributes[var_list[i]]]
-    variable_type = current_struct.attributes[var_list[len(var_list) - 1]]
+    variable_type = task.variables[var_list[0]]
+    for element in var_list[1:]:
+        if element.startswith("[") and element.endswith("]"):
+            # array index: continue with the type of the elements
+            variable_type = variable_type.type_of_elements
+        else:
+            variable_type = struct_definitions[variable_type].attributes[element]
     return variable_type
 
 
